@@ -221,7 +221,9 @@ func (t *TCP) SerializeTo(b gopacket.SerializeBuffer, opts gopacket.SerializeOpt
 	}
 	if opts.FixLengths {
 		if rem := optionLength % 4; rem != 0 {
-			t.Padding = lotsOfZeros[:4-rem]
+			// a fresh slice: handing out a window onto the shared lotsOfZeros
+			// array would let a caller's write change every later packet
+			t.Padding = make([]byte, 4-rem)
 		}
 		t.DataOffset = uint8((len(t.Padding) + optionLength + 20) / 4)
 	}
